@@ -423,8 +423,89 @@ pub fn check_project(ch_seq: &[u32]) -> Result<(bool, u64), Failure> {
     Ok(((p.dirs.len() >= 2 && from_imported) || any_cycle, nruns))
 }
 
+/// Name clashes between a directory and a directory it imports: the statement does not say which
+/// `Base.qml` wins, but whichever does must win consistently — the base class that the component's
+/// own .ui shows for its root type is the class whose properties its instances accept.
+fn run_clash_consistency(env: &Env, stats: &mut Stats) -> Vec<Violation> {
+    let n = env.tier.pick(48, 600);
+    let seqs = sample_choices(env, PID, "clash-consistency", n, 32);
+    let results: Vec<Option<Failure>> = seqs.par_iter().map(|c| clash_case(c)).collect();
+    let mut out = vec![];
+    for (r, c) in results.into_iter().zip(&seqs) {
+        stats.evaluations += 1;
+        stats.nontrivial.insert(stable_hash(&("clash", c)));
+        *stats.counters.entry("clash_consistency_projects".into()).or_default() += 1;
+        if let Some(f) = r {
+            if out.is_empty() {
+                out.push(Violation { failure: f, choices: Some(c.clone()), part: "clash-consistency".into() });
+            }
+        }
+    }
+    out
+}
+
+fn clash_case(c: &[u32]) -> Option<Failure> {
+    // (Qt class, a property only that class has among the four, value text)
+    const EXCL: &[(&str, &str, &str)] = &[("QDialog", "sizeGripEnabled", "true"), ("QFrame", "lineWidth", "3"), ("QPushButton", "text", "\"push\""), ("QGroupBox", "title", "\"group\"")];
+    {
+        {
+            let mut ch = Chooser::new(c);
+            let a = ch.below(EXCL.len());
+            let b = (a + 1 + ch.below(EXCL.len() - 1)) % EXCL.len();
+            // the component Fancy lives in `own`; `own` imports `other`; both hold a Base.qml
+            let (own, other) = *ch.pick(&[("app", "lib"), ("lib", "app"), ("app", "app/inner"), ("app/inner", "app")]);
+            let main_in_own = ch.chance(2, 3);
+            let files = |dir: &Path| {
+                std::fs::create_dir_all(dir.join(own)).unwrap();
+                std::fs::create_dir_all(dir.join(other)).unwrap();
+                std::fs::write(dir.join(own).join("Base.qml"), format!("import qmluic.QtWidgets\n{} {{}}\n", EXCL[a].0)).unwrap();
+                std::fs::write(dir.join(other).join("Base.qml"), format!("import qmluic.QtWidgets\n{} {{}}\n", EXCL[b].0)).unwrap();
+                let imp = rel_import(own, other);
+                std::fs::write(dir.join(own).join("Fancy.qml"), format!("import qmluic.QtWidgets\nimport \"{imp}\"\nBase {{}}\n")).unwrap();
+            };
+            let fail = |k: &str, what: String, extra: Value| Some(Failure { key: format!("c18-{k}"), what, detail: json!({"own_dir": own, "imported_dir": other, "own_base": EXCL[a].0, "imported_base": EXCL[b].0, "extra": extra}) });
+            // 1. the component as a document: which Base does its own .ui show?
+            let d1 = scratch_dir("c18c");
+            files(d1.path());
+            let r1 = translate::run_cli(d1.path(), &translate::foreign_types(), &[format!("{own}/Fancy.qml")], 30);
+            if r1.timed_out || r1.status != Some(0) {
+                // rejecting the clash altogether would be consistent too, as long as instances are rejected as well
+                return None;
+            }
+            let ui = std::fs::read(d1.path().join(own).join("fancy.ui")).ok()?;
+            let f = form::decode(&ui).ok()?;
+            let ext = f.custom_widgets.iter().find(|c| c.0 == "Base").map(|c| c.1.clone());
+            let Some(ext) = ext else { return fail("clash-no-customwidget", "fancy.ui does not list the custom widget Base".into(), json!(String::from_utf8_lossy(&ui))) };
+            let Some(winner) = EXCL.iter().position(|e| e.0 == ext) else { return fail("clash-extends", format!("Base extends {ext}, which is neither candidate"), json!(null)) };
+            let loser = if winner == a { b } else { a };
+            // 2. instances of Fancy accept the winner's property and not the loser's
+            for (which, idx, must_accept) in [("winner", winner, true), ("loser", loser, false)] {
+                let d2 = scratch_dir("c18c");
+                files(d2.path());
+                let (mdir, imp) = if main_in_own { (own.to_owned(), String::new()) } else { (other.to_owned(), format!("import \"{}\"\n", rel_import(other, own))) };
+                let main = format!("import qmluic.QtWidgets\n{imp}QWidget {{\n    Fancy {{ {}: {} }}\n}}\n", EXCL[idx].1, EXCL[idx].2);
+                std::fs::write(d2.path().join(&mdir).join("Main.qml"), &main).unwrap();
+                let r2 = translate::run_cli(d2.path(), &translate::foreign_types(), &[format!("{mdir}/Main.qml")], 30);
+                let accepted = r2.status == Some(0);
+                if accepted != must_accept {
+                    return fail(
+                        "clash-inconsistent",
+                        format!("{own}/Fancy.qml (root type Base, Base.qml in {own} is a {}, in the imported {other} a {}): its own .ui says Base extends {ext}, but an instance with the {which}'s property `{}` is {}", EXCL[a].0, EXCL[b].0, EXCL[idx].1, if accepted { "accepted" } else { "rejected" }),
+                        json!({"main": main, "stderr": r2.stderr.chars().take(800).collect::<String>()}),
+                    );
+                }
+            }
+            None
+        }
+    }
+}
+
 pub fn replay(v: &Value) -> Outcome {
     match choices_from_json(v) {
+        Some(c) if v["part"].as_str() == Some("clash-consistency") => match clash_case(&c) {
+            None => Outcome::pass(None),
+            Some(f) => Outcome { verdict: Verdict::Fail(f), nontrivial: None, sample: None, counters: vec![] },
+        },
         Some(c) => match check_project(&c) {
             Ok(_) => Outcome::pass(None),
             Err(f) => Outcome { verdict: Verdict::Fail(f), nontrivial: None, sample: None, counters: vec![] },
@@ -492,10 +573,12 @@ pub fn run(env: &Env, known: &Known, started: Instant, replayed: u64, replay_vio
         }
     }
     stats.counters.insert("runs_of_the_real_binary".into(), cli_runs);
+    let mut clash = run_clash_consistency(env, &mut stats);
+    violations.append(&mut clash);
     translate::remove_foreign_types_file();
     let ev = Evidence {
         env, pid: PID, level: "exploration",
-        rule: "projects of 1-4 directories (nested or siblings) with arbitrary mutual import-by-string relations (also \".\"), 0-6 component files whose root type is a Qt widget class or an earlier visible component (chains), unused troublemakers in the directories (mutually inheriting pair, self-inheriting component, component with a missing base), and 1-4 sources that instantiate 0-5 visible components (repeats, also as their own root type) with a property of the component's Qt base class; a quarter of the projects carry one invalid use (component without widget base through a cycle, component of a directory that is not imported, missing component, import of a missing directory). The real binary is run for every order of the source arguments (all permutations up to 3 sources, 6 drawn ones beyond), each in a fresh copy of the project. Oracle: every run terminates (20 s watchdog, confirmed with 60 s) with status 0/1; the status and the bytes written for a source are the same in every order; valid projects are accepted and for every source <customwidgets> as a set equals {(X, type of X.qml's root object, lower(X).h)} over the distinct instantiated components, each once, every instance is in the form with its base-class property; projects with an invalid use are rejected. Non-trivial = >= 2 directories with a component used from an imported directory, or a cyclic component present; distinct by choice sequence.",
+        rule: "projects of 1-4 directories (nested or siblings) with arbitrary mutual import-by-string relations (also \".\"), 0-6 component files whose root type is a Qt widget class or an earlier visible component (chains), unused troublemakers in the directories (mutually inheriting pair, self-inheriting component, component with a missing base), and 1-4 sources that instantiate 0-5 visible components (repeats, also as their own root type) with a property of the component's Qt base class; a quarter of the projects carry one invalid use (component without widget base through a cycle, component of a directory that is not imported, missing component, import of a missing directory). The real binary is run for every order of the source arguments (all permutations up to 3 sources, 6 drawn ones beyond), each in a fresh copy of the project. Oracle: every run terminates (20 s watchdog, confirmed with 60 s) with status 0/1; the status and the bytes written for a source are the same in every order; valid projects are accepted and for every source <customwidgets> as a set equals {(X, type of X.qml's root object, lower(X).h)} over the distinct instantiated components, each once, every instance is in the form with its base-class property; projects with an invalid use are rejected. Separate part: when a directory and a directory it imports both hold `Base.qml` with different Qt bases (precedence is not specified), the base that the component's own .ui shows for `Base` must be the one whose exclusive property its instances accept, and the other one's exclusive property must be rejected. Non-trivial = >= 2 directories with a component used from an imported directory, or a cyclic component present; distinct by choice sequence.",
         assumptions: vec!["name clashes between an imported directory and the own directory are not generated (precedence is not specified)".into(), "with a failing source the tool stops at it by design, so presence of later outputs is only compared for successful invocations; contents are compared whenever written".into()],
         extra: json!({}),
     };
